@@ -253,6 +253,38 @@ func c15case(fail func(string, ...any), tr *transcript, k *gen.Kind, vals []ref.
 			fail("%s: DecodeColumn(%s column): row %d differs", k.T.Name, mode, j)
 		}
 	}
+	// The same bytes behind the decompressor (the column of a Data packet on a compressed
+	// connection), with another frame following: the column's rows, and the next frame is next.
+	if len(vals) > 0 {
+		method := []byte{ref.MethodLZ4, ref.MethodZSTD, ref.MethodNone}[len(vals)%3]
+		// (something of the frame - think of the block header - is read before the column)
+		f1, e1 := ref.BuildFrame(method, append([]byte("hdr"), want.B...))
+		f2, e2 := ref.BuildFrame(ref.MethodLZ4, []byte("next-frame"))
+		if e1 != nil || e2 != nil {
+			fail("harness: frames: %v %v", e1, e2)
+		}
+		r := readerOf(append(append([]byte(nil), f1...), f2...))
+		r.EnableCompression()
+		hdr := make([]byte, 3)
+		if err := r.ReadFull(hdr); err != nil || string(hdr) != "hdr" {
+			fail("harness: reading the first bytes of the frame: %q %v", hdr, err)
+		}
+		target := k.New()
+		err := safely(func() error { return target.Column().(proto.ColResult).DecodeColumn(r, len(vals)) })
+		dg, n, rerr := rowsDigest(target)
+		tr.line("%s|dec-compressed|%s|rows=%d|%s|%v", id, errClass(err), n, dg, rerr)
+		if err != nil {
+			fail("%s: DecodeColumn of %d rows through the decompressor (method %#x): %v", k.T.Name, len(vals), method, err)
+		}
+		got, _ := readAll(target)
+		if j, ok := ref.EqualRows(k.T, got, vals); !ok {
+			fail("%s: DecodeColumn of %d rows through the decompressor (method %#x): row %d differs", k.T.Name, len(vals), method, j)
+		}
+		rest := make([]byte, len("next-frame"))
+		if err := r.ReadFull(rest); err != nil || string(rest) != "next-frame" {
+			fail("%s: after a column of %d rows read through the decompressor the next frame reads %q (%v)", k.T.Name, len(vals), rest, err)
+		}
+	}
 	// Arbitrary bytes of the right length: every bit pattern is a value for all
 	// these codecs except Bool (only 0 and 1): decode then encode is the identity.
 	if len(arbitrary) >= w && w > 0 {
@@ -400,7 +432,7 @@ func TestC15Differential(t *testing.T) {
 		arb := rapid.SliceOfN(rapid.Byte(), 0, 96).Draw(rt, "arbitrary")
 		c15case(func(f string, a ...any) { rt.Fatalf(f, a...) }, tr, k, vals, junk, arb, "random")
 		st.Case(stats.Hash("c15", k.Key(), encodeRefColumn(k.T, vals), junk, arb), true, func() any {
-			return map[string]any{"kind": "dual-codec-case", "type": k.T.Name, "rows": rows, "junk_prefix": len(junk), "arbitrary_bytes": len(arb), "ops": "enc-empty, enc-junk, write, write-junk, write-two, dec-used-reader, dec-rows-k-of-n, dec-fresh, dec-reset, dec-arbitrary, dec-short"}
+			return map[string]any{"kind": "dual-codec-case", "type": k.T.Name, "rows": rows, "junk_prefix": len(junk), "arbitrary_bytes": len(arb), "ops": "enc-empty, enc-junk, write, write-junk, write-two, dec-used-reader, dec-rows-k-of-n, dec-fresh, dec-reset, dec-compressed, dec-arbitrary, dec-short"}
 		})
 		st.Label("codec:" + k.Scalar)
 	})
